@@ -11,7 +11,8 @@ EXPLANATION = (
     "Adler trailer; stored-block LEN/NLEN. GUARD: every match search (longest_match*, compare256 in quick) is "
     "control-dependent on dist <= max_dist() and dist > 0, and max_dist() = w_size - MIN_LOOKAHEAD. "
     "Does not decide dynamic Huffman construction, final-block flag uniqueness or window-relative distances after slides. "
-    "PAIR/header-crc-once (shared with C20): in flush_bytes a running-CRC update from which a suspension is still reachable is taken over the pending buffer, so every gzip header byte enters FHCRC exactly once.")
+    "PAIR/header-crc-once (shared with C20): in flush_bytes a running-CRC update from which a suspension is still reachable is taken over the pending buffer, so every gzip header byte enters FHCRC exactly once. "
+    "ATOM/stored-final-block (see C01). SIB/ref-conditions: the elementary conditions and calls of the zlib-ng functions this code was ported from (oracles/condparity.json, frozen from the vendored C sources) keep a counterpart in the paired zlib-rs function.")
 
 CLAIM = dict(
     text="Static: exhaustive const-table comparison with RFC 1951 (compiler const evaluation), header/trailer constant "
